@@ -133,3 +133,21 @@ Lemma cross_group_run :
   p_phase (snd (fst (zpend [(GA, forged3); (GB, honest2); (GB, honest3)]))) = Collecting /\
   length (g_map (st_g (p_st (snd (fst (zpend [(GA, forged3); (GB, honest2); (GB, honest3)])))))) = 1%nat.
 Proof. vm_compute. repeat split. Qed.
+
+(* A verifier that remembers (key, signature) pairs it has verified and accepts a remembered pair
+   without looking at the message (here: the model instance whose point comparison also accepts the
+   remembered value 44 = member 2's share over the earlier block's hash, logarithm 4).  Member 2's old
+   share, relabelled with this block's hash, is then admitted: with honest 3 it recovers garbage and
+   the party ends in error.  The node's verification (a function of key, message and signature) rejects
+   it and the block finalises on the valid shares. *)
+Definition stale2 : @msg Z nat := Msg 2 0%nat (PVal (11 * 4)) (PVal (11 * 9)).
+Definition zfinal_with (veq : Z -> Z -> bool) (ms : list (@msg Z nat)) :=
+  party_final (zq rq) Z.eqb veq (Z.eqb 0) (zvz rq) Nat.eqb (zH rhs) zsel true renv ms.
+Definition veq_remembering (a b : Z) : bool := zveq rq a b || (a mod rq =? 44).
+
+Lemma stale_share_run :
+  snd (zparty_run rq rhs true renv [stale2; honest3; honest2]) =
+    [(OBadSign, TNone); (OAdded, TNone); (ORecovered, TDone)] /\
+  g_map (st_g (p_st (zfinal_with veq_remembering [stale2; honest3; honest2]))) = [(2, 44); (3, 98)] /\
+  p_phase (zfinal_with veq_remembering [stale2; honest3; honest2]) = Closed.
+Proof. vm_compute. repeat split. Qed.
